@@ -9,3 +9,6 @@ ASSUMPTIONS = W.ASSUMPTIONS
 suites = W.suites
 classify = W.classify
 replay_case = W.replay_case
+
+MANIFEST_ADD = {"text": 'Add-on Props/C17_cfg.v (C17_cfg_same_configuration): any two front-ends started through their documented factories with the same arguments serve with the same configuration, role by role; tied by calling all ten real factories.',
+                "note": ''}
